@@ -4,7 +4,8 @@ import Fabio.Model.C14
 C14 — obligations over the facts regenerated from `/repo` on every run: the literals of the option switch and of
 the emitted line that `Model/C14.lean` mirrors, how tags and options are quoted, that every command passes fabio's
 own parser and a routing table before it is emitted (repair of D19), the tag partition, the address fallback, the
-calls of `parseURLPrefixTag`, and the join of `makeConfig`.
+calls of `parseURLPrefixTag`, the join of `makeConfig`, and that monitor and command builder keep no state between
+calls (struct fields, no writes through a receiver, no package variables, what each method reads).
 -/
 namespace Fabio.Props.C14Facts
 open Fabio Fabio.Generated.C14 Fabio.Model.C14
@@ -98,5 +99,29 @@ theorem make_config_join :
     makeConfigJoin = ["sort.Sort(sort.Reverse(sort.StringSlice(config)))", "strings.Join(config, \"\\n\")"] ∧
     serviceConfigGuard = "name == \"\" || len(passing) == 0" ∧ envKeys = ["DC"] ∧
     serviceConfigBuildCalls = ["r.build()"] := by pin
+
+/-! ### no state between calls (the property quantifies over histories) -/
+
+/-- `ServiceMonitor` holds the client, the configuration, the datacenter and the strict flag — nothing that could
+remember an earlier catalog state; `routecmd` holds the catalog entry, the prefix and the environment -/
+theorem monitor_fields :
+    monitorFields = ["client *api.Client", "config *config.Consul", "dc string", "strict bool"] ∧
+    routecmdFields = ["svc *api.CatalogService", "prefix string", "env map[string]string"] := by pin
+
+/-- the monitor's methods are `Watch`, `makeConfig`, `serviceConfig`; no method of `ServiceMonitor` or `routecmd`
+assigns through its receiver; the package has no package-level variable -/
+theorem monitor_is_stateless :
+    monitorMethods = ["Watch", "makeConfig", "serviceConfig"] ∧ receiverWrites = [] ∧ packageVars = [] := by pin
+
+/-- what the methods read through their receiver: `makeConfig` the number of parallel lookups, `serviceConfig` the
+client (the catalog answer), the query options, the tag prefix and the datacenter — and `build` exactly the
+fields of the catalog entry that `Model.C14.Reg` carries (name, service address, node address, port, tags), the
+prefix and the environment: `CreateIndex`/`ModifyIndex` and the like are not consulted -/
+theorem reads_only_current_state :
+    makeConfigReads = ["w.config.ServiceMonitors", "w.serviceConfig"] ∧
+    serviceConfigReads = ["w.client.Catalog", "w.config.AllowStale", "w.config.RequireConsistent",
+      "w.config.TagPrefix", "w.dc"] ∧
+    buildReads = ["r.env", "r.prefix", "r.svc.Address", "r.svc.ServiceAddress", "r.svc.ServiceName",
+      "r.svc.ServicePort", "r.svc.ServiceTags"] := by pin
 
 end Fabio.Props.C14Facts
